@@ -15,6 +15,21 @@ for d in sorted(glob.glob('/tmp/mut-c*/m*') + glob.glob('/tmp/mut2-c*/m*') + glo
     if not (v.get('applies') and v.get('suite_passes_with_change') and v.get('demo_fails_with_change') and v.get('demo_passes_without_change')):
         print('SKIP (not confirmed)', key, v); continue
     out = f'/verif/seeded/{key}'
+    if os.path.exists(out+'/patch.diff') and not os.environ.get('FORCE'):
+        # already collected (its patch may have been ported onto a later repair by hand since): only refresh the
+        # detection record
+        try:
+            meta = json.load(open(out+'/meta.json'))
+            det = DET.get(key, {})
+            if det:
+                meta['checks_run'] = det.get('checks', meta.get('checks_run', [pid]))
+                meta['detected_by'] = det.get('detected_by', meta.get('detected_by', []))
+                meta['detection_history'] = det.get('history', meta.get('detection_history', ''))
+                json.dump(meta, open(out+'/meta.json','w'), indent=1)
+        except Exception as e:
+            print('meta refresh failed', key, e)
+        print('ok', key, '(kept)')
+        continue
     os.makedirs(out+'/demo', exist_ok=True)
     src = os.path.join(d,'patch_current.diff')
     shutil.copy(src, out+'/patch.diff')
